@@ -53,6 +53,16 @@ def run(ctx, rep):
     provenance_rule(f, P, rep, one)
     fallback_rule(f, P, rep)
     adjacency_rule(f, P, rep, one)
+    # C11.10: "returns Ok for all arguments" - no argument value panics in the clipping arithmetic (C13.2 for discard)
+    from . import c13
+    from ..guard import checks as _checks
+    rep.rule('C11.10', 'overflow-checked arithmetic of discard on its raw arguments is dominated by a check that bounds them')
+    vb = c13.validation_body(f, P, 'discard')
+    roots = c13.arg_roots(f, vb)
+    cks, dp = _checks(P, vb)
+    nn = [0]
+    c13.raw_overflow_rule(f, P, rep, 'C11.10', 'discard', vb, roots, cks, dp, {}, nn)
+    rep.floor('overflow sites of discard on raw arguments', nn[0], 1)
     # C11.9: the decision to release a cluster and the clearing of its entry are one step under the slice write guard
     from ..critsec import check_then_act
     rep.rule('C11.9', 'the discard routines decide on the L2 entry read through the slice write guard they mutate under (decision and '
@@ -128,6 +138,24 @@ def range_rule(f, rep, b):
         sat = ('max', ('c', 0), ('min', ('c', (1 << 64) - 1), ai.mk_bin('Add', vo, ln)))
         ok_hi1 = ai.prove_le(st, end_c, vs)
         ok_hi2 = ai.prove_le(st, end_c, sat) or ai.prove_le(st, end_c, ai.mk_bin('Add', vo, ln))
+        if not (ok_hi1 and ok_hi2):
+            # relational fallback: linear forms with the floor / min / max lemmas (e.g. end = offset + min(len, vsize - offset))
+            from ..linear import LinProver
+            try:
+                lp = LinProver(ai, st, CL)
+                ok_hi1 = ok_hi1 or lp.prove_le(end_c, vs)
+                ok_hi2 = ok_hi2 or lp.prove_le(end_c, ai.mk_bin('Add', vo, ln))
+                # through the loop bound: cursor < stop, both cluster aligned => cursor + cluster <= stop (engine G), and
+                # stop <= the limit by the linear layer
+                for fct in list(st.le):
+                    if len(fct) == 3 and fct[0] in ('lt', 'le') and ai.strip(st, fct[1]) == ai.strip(st, g):
+                        X = fct[2]
+                        if not ai.prove_le(st, end_c, X):
+                            continue
+                        ok_hi1 = ok_hi1 or lp.prove_le(X, vs)
+                        ok_hi2 = ok_hi2 or lp.prove_le(X, ai.mk_bin('Add', vo, ln))
+            except RecursionError:
+                pass
         rep.ob('C11.1', 'cluster passed at %s ends inside the virtual size' % where, ok_hi1, '')
         rep.ob('C11.1', 'cluster passed at %s ends inside offset+len' % where, ok_hi2, '')
         for ok, what, key in ((ok_al, 'is not provably cluster aligned', 'align'), (ok_lo, 'can lie below the offset the caller gave (outward rounding)', 'low'),
